@@ -13,7 +13,7 @@ tvars == <<obj, ret, l, bad, kf>>
 
 RegOf(e) == LET names == {e.reg[i].name : i \in 1..Len(e.reg)} IN
             [n \in names |-> LET i == CHOOSE j \in 1..Len(e.reg) : e.reg[j].name = n IN
-                             [p |-> e.reg[i].p, canon |-> e.reg[i].canon, impl |-> e.reg[i].impl]]
+                             [p |-> e.reg[i].p, canon |-> e.reg[i].canon, impl |-> e.reg[i].impl, tag |-> e.reg[i].tag]]
 GetOK(o, c, r) == ObsRet(r) \in GetterRets(o, c)
 ReadsOK(o, e) == /\ \A c \in IClaims : GetOK(o, c, e.get[c])
                  /\ (e.get["sw"].ok => /\ Len(e.cget) = Len(o.sw.l)
@@ -35,8 +35,39 @@ DecodeCBOROK(tol, e) ==
        \* whatever decodes (validated or not) under a verdict of the spec carries exactly the wire values
        /\ (e.dec.ok /\ x.r = "ok" => e.dec.impl = d.e.impl /\ e.dec.obj = x.o /\ ReadsOK(x.o, e))
 
+\* keys / members an extension profile adds (harness profile X2: one optional integer claim)
+ExtraKeys(o) == IF o.canon = "http://example.com/x2" THEN {-75100} ELSE {}
+ExtraMembers(o) == IF o.canon = "http://example.com/x2" THEN {"timestamp"} ELSE {}
+\* C10 (wire format of every emitted token) and C09 (decode . encode = identity, bytes stable)
+\* a no-measurements flag other than 1 is left open by the specifications: no verdict
+FlagOpen(o) == Present(o.noSw) /\ o.noSw.v # 1
+EncodeCBOROK(e) ==
+  LET o == e.pre IN
+  FlagOpen(o) \/
+  /\ e.post = o /\ e.prevIntact
+  /\ (Valid(o) => /\ e.enc.ok /\ e.enc.wf /\ e.enc.trail = 0
+                   /\ WireFormatOKx(o, e.enc.tok, ExtraKeys(o))
+                   /\ e.vencOK /\ e.vencSame                              \* the validating encoder emits the same bytes
+                   /\ e.redec.ok /\ e.redec.obj = o /\ e.regetEq          \* decoding gives the same claims-set
+                   /\ e.reencOK /\ e.reencEq /\ e.twice)                  \* and the identical bytes again
+  /\ (~Valid(o) => ~e.vencOK)
+  \* a decodable-but-invalid set: the encoder errs, or what it emits decodes to the same getter results
+  /\ (~Valid(o) /\ e.enc.ok => e.redec.ok /\ e.regetEq)
+\* C12: JSON member names / forms / omission, JSON round trip through the dispatching decoder, CBOR <-> JSON
+EncodeJSONOK(e) ==
+  LET o == e.pre IN
+  FlagOpen(o) \/
+  /\ e.post = o /\ e.prevIntact
+  /\ (Valid(o) => /\ e.encOK /\ e.wf /\ JsonFormatOKx(o, e.doc, ExtraMembers(o))
+                   /\ e.vencOK /\ e.vencEq
+                   /\ e.redec.ok /\ e.redec.obj = o /\ e.regetEq
+                   /\ LET d == DispatchJSON(RegOf(e), e.doc) IN d.r = "ok" /\ d.e.impl = e.redec.impl
+                   /\ e.crossOK /\ e.crossEq)
+  /\ (~Valid(o) => ~e.vencOK)
 MatchT(tol, e) ==
   CASE e.op = "DecodeCBOR" -> DecodeCBOROK(tol, e)
+    [] e.op = "EncodeCBOR" -> EncodeCBOROK(e)
+    [] e.op = "EncodeJSON" -> EncodeJSONOK(e)
     [] OTHER -> FALSE
 TInit == l = 1 /\ bad = <<>> /\ kf = <<>> /\ obj = Blank("P1", P1Name) /\ ret = RetRec("New", "none", RetOK(Abs), Abs)
 TNext == /\ l <= Len(Trace) /\ l' = l + 1
